@@ -55,6 +55,12 @@ class ViewModel:
                     out['%s%s.%d' % (prefix, k, i)] = x
                 continue
             vg_ = getattr(self, '_ctor_vg', None)
+            if vg_ is not None and isinstance(t, tuple) and t and vg_.oos_names(prefix + k):
+                # Option of a plain struct / option-like enum with several payload fields: one Option cell per payload field
+                from .vg import opt_project
+                for n_ in vg_.oos_names(prefix + k):
+                    out['%s%s.%s' % (prefix, k, n_)] = opt_project(t, n_)
+                continue
             if isinstance(t, tuple) and t and t[0] in ('seq_lit', 'seq_rep') and vg_ is not None and vg_.small_array_len(prefix + k) is not None:
                 # small fixed-size array of registers: components are the cells `f.0`, `f.1`, ..
                 for i in range(vg_.small_array_len(prefix + k)):
